@@ -607,6 +607,10 @@ def orc_meadows_mat_multi(case):
         items = stim_vars + utv_vars
     elif layout == 'rdm-first':
         items = utv_vars + stim_vars
+    elif layout == 'rdm-reversed':      # the value variables stored in another participant order than the stimulus variables
+        items = stim_vars + utv_vars[::-1]
+    elif layout == 'rdm-rotated':
+        items = utv_vars[1:] + utv_vars[:1] + stim_vars
     else:
         items = [x for pair in zip(utv_vars, stim_vars) for x in pair]
     fc = dict(shape='multi-participant-single-task', exp=case['exp'], version=case['version'], task_name=case['task_name'],
@@ -1275,7 +1279,7 @@ def tier_c(run, thorough):
     bds.append(bd)
 
     bd = Bounded(run, 'C20/meadows-mat-multi', 'C20/load_rdms/oracle/meadows-mat-multi',
-                 f'savemat files, 1..3 participants (alphabetical and other order), 3..{nmax} stimuli, 4 variable layouts, '
+                 f'savemat files, 1..3 participants (alphabetical and other order), 3..{nmax} stimuli, 4 variable layouts (+ 2 where the rdmutv_* variables are stored in another participant order than the stimuli_* variables), '
                  'sort False / True / default; same stimulus order for all participants, and a class with a different order per '
                  'participant', function='load_rdms')
     part_sets = [['able-fly'], ['clean-koi', 'able-fly'], ['able-fly', 'clean-koi', 'cuddly-bunny'], ['wise-ox', 'sure-cat', 'able-fly']]
@@ -1290,6 +1294,13 @@ def tier_c(run, thorough):
                                     task_name='arrangement', layout=layout)
                         bd.check(orc_meadows_mat_multi, case, 'single-participant-in-multi-file' if len(parts) == 1 else
                                  'same-stimulus-order', function='load_rdms_comps_mat')
+    for n in (3, 5):
+        for parts in part_sets[1:]:
+            for layout in ('rdm-reversed', 'rdm-rotated'):
+                for sort in (0, 1):
+                    case = dict(seed=n, n_stim=n, names='equal-length', sort=sort, exp='twoMa', version=2, participants=parts,
+                                task_name='arrangement', layout=layout)
+                    bd.check(orc_meadows_mat_multi, case, 'value-variables-in-another-participant-order', function='load_rdms_comps_mat')
     for n in (3, 4):
         for parts in part_sets[1:3]:
             for sort in (0, 1):
